@@ -194,31 +194,55 @@ def work_pretag(bins, seed, n):
 
 
 def work_chain(bins, seed, idx, tmp):
-    """real repositories: one base tag, commits on 1-3 branches, flow observed at every commit"""
+    """real repositories: one or two final-release tags (possibly placed after a branch forked), commits on
+    1-3 branches, merges in both directions; flow observed at every commit"""
     rng = random.Random("%s/%d" % (seed, idx))
     path = os.path.join(tmp, "c%d" % idx, "repo")
     os.makedirs(os.path.dirname(path), exist_ok=True)
     home = os.path.dirname(path)
     env = core.base_env(bins, home=home)
     bad = []
-    st = {"chain_observations": 0, "chain_monotonic_pairs": 0}
+    st = {"chain_observations": 0, "chain_monotonic_pairs": 0, "chain_tag_only_via_second_parent": 0, "chain_no_tag_reachable": 0, "chain_two_tags": 0}
     repo = gitmodel.Repo(path, rng)
+    tagv = {}
     try:
-        x, y, z = rng.choice(NUMS[:5]), rng.choice(NUMS[:5]), rng.choice(NUMS[:5])
-        for _ in range(rng.randrange(0, 3)):
-            repo.commit()
-        tag = "%s%d.%d.%d" % (rng.choice(["", "v"]), x, y, z)
-        repo.tag(tag, annotated=rng.random() < 0.4)
-        lo, hi = "%d.%d.%d" % (x, y, z), "%d.%d.%d" % (x, y, z + 1)
-        last = {}            # (branch, fmt) -> (distance, version)
         branches = ["main"]
         hl = rng.choice([5, 3, 7])
+        last = {}            # (branch, fmt, base tag) -> (distance, version)
 
-        def observe(at_tag):
+        def new_tag(lower_than=None):
+            for _ in range(200):
+                x, y, z = rng.choice(NUMS[:5]), rng.choice(NUMS[:5]), rng.choice(NUMS[:5])
+                if lower_than is None or (x, y, z) > lower_than:
+                    break
+            else:
+                x, y, z = lower_than[0] + 1, 0, 0
+            name = "%s%d.%d.%d" % (rng.choice(["", "v"]), x, y, z)
+            if repo.tag(name, annotated=rng.random() < 0.4):
+                tagv[name] = (x, y, z)
+                return (x, y, z)
+            return lower_than
+
+        def first_parent_anc(cid):
+            out = set()
+            while True:
+                out.add(cid)
+                ps = repo.commits[cid]["parents"]
+                if not ps:
+                    return out
+                cid = ps[0]
+
+        def observe():
             br = repo.head[1] if repo.head[0] == "branch" else None
-            kind = rng.choice(["clean", "clean", "modified", "untracked"]) if not at_tag else rng.choice(["clean", "clean", "staged_new"])
+            h = repo.head_cid()
+            anc = repo.anc(h)
+            vset = [c for c in anc if repo.tags_at(c)]
+            nearest = [c for c in vset if not any(c2 != c and c in repo.anc(c2) for c2 in vset)]
+            at_tag = h in nearest
+            kind = rng.choice(["clean", "clean", "modified", "untracked"]) if not at_tag else rng.choice(["clean", "clean", "staged_new", "staged_modified"])
             dirty = repo.make_dirty(kind)
-            dist = len(repo.anc(repo.head_cid()) - repo.anc(repo.tags[0]["cid"]))
+            if nearest and not any(c in first_parent_anc(h) for c in nearest):
+                st["chain_tag_only_via_second_parent"] += 1
             for fmt in ("semver", "pep440"):
                 argv = ["flow", "-C", repo.path, "--output-format", fmt, "--hash-branch-len", str(hl)]
                 r = core.run_zerv(bins, argv, env=env)
@@ -226,50 +250,90 @@ def work_chain(bins, seed, idx, tmp):
                 case = dict(kind="chain", seed=seed, idx=idx, ops=list(repo.ops), dirt=kind, fmt=fmt)
                 if r["timeout"]:
                     continue
+                if not nearest:
+                    st["chain_no_tag_reachable"] += 1
+                    if r["exit"] == 0:
+                        bad.append(("version-from-no-valid-tag", "no tag reachable from HEAD but flow printed %r" % r["out"], case))
+                    continue
                 if r["exit"] != 0:
                     if "panicked" in r["err"]:
                         bad.append(("panic-in-binary", r["err"][:200], case))
                     else:
-                        bad.append(("flow-failed-in-repo", "flow failed in a tagged repository: %s" % r["err"][:200], case))
+                        bad.append(("flow-failed-in-repo", "flow failed although tag(s) %s are reachable: %s" % ([repo.tags_at(c) for c in nearest], r["err"][:200]), case))
                     continue
                 out = r["out"].rstrip("\n")
                 kv = key(fmt, out)
                 if kv is None:
                     bad.append(("flow-output-malformed", "flow printed %r" % out, case))
                     continue
-                if dist == 0 and not dirty:
-                    if public(fmt, out) != lo:
-                        bad.append(("clean-tag-not-exact", "clean checkout at tag %s printed %r" % (tag, out), case))
-                else:
-                    if not (key(fmt, lo) < kv < key(fmt, hi)):
-                        bad.append(("out-of-bounds-in-history", "%s: %r is not strictly between %s and %s (distance %d, dirt %s, branch %s)" % (fmt, out, lo, hi, dist, kind, br), case))
-                    # monotonic along the chain of one branch, commit mode branches only, clean states
-                    if br is not None and not br.startswith("release/") and not dirty:
-                        prev = last.get((br, fmt))
-                        if prev is not None and prev[0] < dist:
-                            st["chain_monotonic_pairs"] += 1
-                            if not (key(fmt, prev[1]) < kv):
-                                bad.append(("not-increasing-along-history", "%s on %s: distance %d gave %r, distance %d gives %r" % (fmt, br, prev[0], prev[1], dist, out), case))
-                        last[(br, fmt)] = (dist, out)
+                ok = False
+                why = []
+                base = None
+                for c in nearest:
+                    x, y, z = max(tagv[t] for t in repo.tags_at(c))
+                    lo, hi = "%d.%d.%d" % (x, y, z), "%d.%d.%d" % (x, y, z + 1)
+                    dist = len(anc - repo.anc(c))
+                    if dist == 0 and not dirty:
+                        good = public(fmt, out) == lo
+                    else:
+                        good = key(fmt, lo) < kv < key(fmt, hi)
+                    if good:
+                        ok = True
+                        base = (c, dist)
+                        break
+                    why.append("base %s at distance %d" % (lo, dist))
+                if not ok:
+                    sig = "clean-tag-not-exact" if (len(nearest) == 1 and len(anc - repo.anc(nearest[0])) == 0 and not dirty) else "out-of-bounds-in-history"
+                    bad.append((sig, "%s: %r does not fit any admissible base (%s; dirt %s, branch %s)" % (fmt, out, "; ".join(why), kind, br), case))
+                    continue
+                if br is not None and not br.startswith("release/") and not dirty and base[1] > 0:
+                    prev = last.get((br, fmt, base[0]))
+                    if prev is not None and prev[0] < base[1]:
+                        st["chain_monotonic_pairs"] += 1
+                        if not (key(fmt, prev[1]) < kv):
+                            bad.append(("not-increasing-along-history", "%s on %s: distance %d gave %r, distance %d gives %r" % (fmt, br, prev[0], prev[1], base[1], out), case))
+                    last[(br, fmt, base[0])] = (base[1], out)
             repo.clean()
-        observe(True)
-        for _ in range(rng.randrange(3, 12)):
-            k = rng.random()
-            if k < 0.6:
+
+        older = None
+        if rng.random() < 0.4:
+            older = new_tag()
+            st["chain_two_tags"] += 1
+            repo.commit()
+        for _ in range(rng.randrange(0, 3)):
+            repo.commit()
+        early = None
+        if rng.random() < 0.5:
+            early = rng.choice(["feature/x", "develop", "topic", "feature/login-1"])
+            repo.branch(early)           # forked BEFORE the release is tagged
+            branches.append(early)
+            if rng.random() < 0.5:
                 repo.commit()
-            elif k < 0.75 and len(branches) < 3:
+        new_tag(older)
+        observe()
+        if early and rng.random() < 0.8:
+            repo.checkout(early)
+            repo.commit()
+            observe()
+            if repo.merge("main"):       # the tag now arrives through the second parent only
+                observe()
+        for _ in range(rng.randrange(3, 11)):
+            k = rng.random()
+            if k < 0.55:
+                repo.commit()
+            elif k < 0.7 and len(branches) < 4:
                 name = rng.choice(["develop", "feature/x", "feature/login-1", "release/3", "hotfix/7", "topic"])
                 if repo.branch(name):
                     branches.append(name)
                     repo.checkout(name)
                 continue
-            elif k < 0.88:
+            elif k < 0.85:
                 repo.checkout(rng.choice(branches))
             else:
                 others = [b for b in branches if b != repo.head[1]]
                 if not others or not repo.merge(rng.choice(others)):
                     continue
-            observe(False)
+            observe()
     except gitmodel.GitError as e:
         raise core.Inconclusive("chain generator: %s" % e)
     finally:
